@@ -332,7 +332,14 @@ pub fn gen_ws(rng: &mut Rng, o: &WsOpts) -> WsSpec {
     // a module nobody imports (its definitions must never be returned)
     if rng.chance(300) {
         let d = rng.pick(&dirs).clone();
-        files.push(PyFile { rel: join_rel(&d, "orphan_fixtures.py"), items: vec![Item::Fixture(Fx { func: rng.pick(&names).clone(), ..Default::default() })] });
+        if rng.chance(500) {
+            files.push(PyFile { rel: join_rel(&d, "orphan_fixtures.py"), items: vec![Item::Fixture(Fx { func: rng.pick(&names).clone(), ..Default::default() })] });
+        } else {
+            // ... in a sub-directory of its own, importing a sibling there relatively (two hops from whoever starts importing it)
+            let od = join_rel(&d, "orph");
+            files.push(PyFile { rel: join_rel(&od, "orphan_fixtures.py"), items: vec![Item::Star { module: ".deep_orphan".into(), target: Some(join_rel(&od, "deep_orphan.py")) }, Item::Fixture(Fx { func: rng.pick(&names).clone(), ..Default::default() })] });
+            files.push(PyFile { rel: join_rel(&od, "deep_orphan.py"), items: vec![Item::Fixture(Fx { func: "deep_orphan_fx".into(), ..Default::default() })] });
+        }
     }
     // imports that cross a directory boundary: a conftest importing a helper module of its parent directory
     // (`from ..fx import *` / absolute name found by walking up) or of a child directory (`from .sub.fx import *`)
@@ -341,7 +348,7 @@ pub fn gen_ws(rng: &mut Rng, o: &WsOpts) -> WsSpec {
             .iter()
             .filter(|f| {
                 let base = f.rel.rsplit('/').next().unwrap_or("");
-                f.rel.ends_with(".py") && base != "conftest.py" && base != "__init__.py" && !f.items.iter().any(|i| matches!(i, Item::Test(_))) && base != "orphan_fixtures.py"
+                f.rel.ends_with(".py") && base != "conftest.py" && base != "__init__.py" && !f.items.iter().any(|i| matches!(i, Item::Test(_))) && base != "orphan_fixtures.py" && base != "deep_orphan.py"
             })
             .map(|f| (f.rel.clone(), fixture_names_of(f)))
             .collect();
@@ -474,7 +481,15 @@ pub fn add_venv(rng: &mut Rng, spec: &mut WsSpec, names: &[String]) {
             // module's fixtures stay visible to the whole workspace
             let shared = "plugsrc/myplug/shared.py".to_string();
             spec.files.push(PyFile { rel: shared.clone(), items: vec![Item::Fixture(Fx { func: "shared_only".into(), ..Default::default() }), Item::Fixture(Fx { func: rng.pick(names).clone(), ..Default::default() })] });
-            plugin_items.insert(0, Item::Star { module: ".shared".into(), target: Some(shared.clone()) });
+            if rng.chance(400) {
+                // the plugin reaches the helper through one more module, so a conftest that imports the helper directly
+                // gets there a round earlier in the import scan
+                let mid = "plugsrc/myplug/mid.py".to_string();
+                spec.files.push(PyFile { rel: mid.clone(), items: vec![Item::Star { module: ".shared".into(), target: Some(shared.clone()) }, Item::Fixture(Fx { func: "mid_only".into(), ..Default::default() })] });
+                plugin_items.insert(0, Item::Star { module: ".mid".into(), target: Some(mid) });
+            } else {
+                plugin_items.insert(0, Item::Star { module: ".shared".into(), target: Some(shared.clone()) });
+            }
             if rng.chance(450) {
                 // ... and that helper star-imports a second one: plugin status has to propagate along the chain
                 // whichever file the import scan happens to look at first
